@@ -1,0 +1,91 @@
+// Copyright 2026 SCION Association
+//
+// Licensed under the Apache License, Version 2.0 (the "License");
+// you may not use this file except in compliance with the License.
+// You may obtain a copy of the License at
+//
+//   http://www.apache.org/licenses/LICENSE-2.0
+//
+// Unless required by applicable law or agreed to in writing, software
+// distributed under the License is distributed on an "AS IS" BASIS,
+// WITHOUT WARRANTIES OR CONDITIONS OF ANY KIND, either express or implied.
+// See the License for the specific language governing permissions and
+// limitations under the License.
+
+//go:build verif
+
+package bfd
+
+import (
+	"github.com/gopacket/gopacket/layers"
+)
+
+// Verification hooks (build tag verif only). States and the four "received state" events use the
+// numeric values of layers.BFDState (AdminDown=0, Down=1, Init=2, Up=3).
+const (
+	VerifEventTimer   = int(eventTimer)
+	VerifEventAdminUp = int(eventAdminUp)
+)
+
+// VerifTransition is the package's transition function. Like the original it panics on
+// unknown states or events.
+func VerifTransition(st, ev int) int {
+	return int(transition(state(st), event(ev)))
+}
+
+// VerifShouldDiscard is the package's packet admission check used by ReceiveMessage.
+func VerifShouldDiscard(pkt *layers.BFD) bool {
+	discard, _ := shouldDiscard(pkt)
+	return discard
+}
+
+// VerifEvent describes one step of Session.Run, taken after the step has been applied.
+type VerifEvent struct {
+	// Kind is "recv" (a message taken from the queue was processed), "timer" (the detection
+	// timer expired) or "send" (a control packet is about to be handed to the Sender).
+	Kind string
+	// Local is the local session state after the step, Remote the last received remote state.
+	Local, Remote int
+	// LocalDisc / RemoteDisc are the discriminators after the step.
+	LocalDisc, RemoteDisc uint32
+	// MsgState, MsgMyDisc, MsgYourDisc describe the processed message (recv) or the packet
+	// being sent (send); zero for timer.
+	MsgState               int
+	MsgMyDisc, MsgYourDisc uint32
+	// MsgDetectMult, MsgDesiredMinTx, MsgRequiredMinRx (microseconds) of that message/packet.
+	MsgDetectMult    int
+	MsgDesiredMinTx  uint32
+	MsgRequiredMinRx uint32
+}
+
+// VerifTracer, if set (before any Session runs), is called synchronously from the goroutine
+// executing Session.Run after every step. Events of one session are totally ordered.
+var VerifTracer func(s *Session, ev VerifEvent)
+
+func (s *Session) verifTrace(kind string, msg *bfdMessage, pkt *layers.BFD) {
+	if VerifTracer == nil {
+		return
+	}
+	ev := VerifEvent{
+		Kind:       kind,
+		Local:      int(s.getLocalState()),
+		Remote:     int(s.remoteState),
+		LocalDisc:  uint32(s.LocalDiscriminator),
+		RemoteDisc: uint32(s.getRemoteDiscriminator()),
+	}
+	if msg != nil {
+		ev.MsgState = int(msg.State)
+		ev.MsgMyDisc, ev.MsgYourDisc = uint32(msg.MyDiscriminator), uint32(msg.YourDiscriminator)
+		ev.MsgDetectMult = int(msg.DetectMultiplier)
+		ev.MsgDesiredMinTx = uint32(msg.DesiredMinTxInterval)
+		ev.MsgRequiredMinRx = uint32(msg.RequiredMinRxInterval)
+	}
+	if pkt != nil {
+		ev.MsgState = int(pkt.State)
+		ev.MsgMyDisc, ev.MsgYourDisc = uint32(pkt.MyDiscriminator), uint32(pkt.YourDiscriminator)
+		ev.MsgDetectMult = int(pkt.DetectMultiplier)
+		ev.MsgDesiredMinTx = uint32(pkt.DesiredMinTxInterval)
+		ev.MsgRequiredMinRx = uint32(pkt.RequiredMinRxInterval)
+	}
+	VerifTracer(s, ev)
+}
